@@ -49,6 +49,29 @@ def rt : P String := do
     let body := names.map (fun n => s!"{n} {showVal (s' n)}")
     pure s!"K {ks} R {" ".intercalate (toString names.length :: body)}"
 
+/-- sl.cls  class  branch(compressed|uncompressed)  state  fresh-state        save / load of a class by its row of the GENERATED
+    table `saveTables` (every class with a save/load pair x every keyword branch of save); answer as `sl.rt`;
+    `U` = the table has no such row -/
+def clsrt : P String := do
+  let cls ← tok
+  let branch ← tok
+  let s ← slots
+  let s0 ← slots
+  match findRow saveTables cls branch with
+  | none => pure "U"
+  | some row =>
+    let sp := row.spec
+    let file := save sp (stateOf s)
+    let keys := (Dict.keys file).eraseDups
+    let ks := " ".intercalate (toString keys.length :: keys)
+    match load sp file (stateOf s0) with
+    | .error .objectArray => pure s!"K {ks} E objarray"
+    | .error (.keyError k) => pure s!"K {ks} E keyerror {k}"
+    | .ok s' =>
+      let names := s0.map (·.1)
+      let body := names.map (fun n => s!"{n} {showVal (s' n)}")
+      pure s!"K {ks} R {" ".intercalate (toString names.length :: body)}"
+
 def showNest : (k : Nat) → Nest Float k → String
   | 0, x => fout x
   | k+1, xs => "[ " ++ " ".intercalate (List.map (showNest k) xs) ++ " ]"
@@ -164,6 +187,7 @@ def sghist : P String := do
 def handle (verb : String) : Option (P String) :=
   match verb with
   | "sl.rt" => some rt
+  | "sl.cls" => some clsrt
   | "json.rt" => some jsonrt
   | "fw.call" => some fwcall
   | "sl.hist" => some hist
